@@ -680,7 +680,7 @@ impl<E: Eviction> CacheT<E> {
         &&& (!before.pipe.enabled ==> self.pipe.sent@ == before.pipe.sent@)
     }
 
-//@region foyer-memory/src/raw.rs :: impl~^impl<E, S, I> RawCache<E, S, I> where/fn insert_inner name=insert_inner_dispatch start=/let piped = self\.pipe\.is_enabled\(\);/ end=/if self\.inner\.event_listener\.is_some\(\) \|\| piped/ rules=for-tuple-pattern
+//@region foyer-memory/src/raw.rs :: impl~^impl<E, S, I> RawCache<E, S, I> where/fn insert_inner name=insert_inner_dispatch start=/let piped = self\.pipe\.is_enabled/ stmts=2 rules=for-tuple-pattern
 //@head
     fn insert_inner_dispatch(&mut self, garbages: Vec<(Event, Arc<Record<E>>)>)
         ensures final(self).dispatched(old(self), garbages@), // @label each_garbage_notified_once_and_only_evictions_piped
@@ -705,7 +705,7 @@ impl<E: Eviction> CacheT<E> {
         }
 //@end
 
-//@region foyer-memory/src/raw.rs :: impl~^impl<E, S, I> RawCache<E, S, I> where/fn evict_all name=evict_all_dispatch start=/let piped = self\.pipe\.is_enabled\(\);/ end=/if self\.inner\.event_listener\.is_some\(\) \|\| piped/ rules=for-tuple-pattern
+//@region foyer-memory/src/raw.rs :: impl~^impl<E, S, I> RawCache<E, S, I> where/fn evict_all name=evict_all_dispatch start=/let piped = self\.pipe\.is_enabled/ stmts=2 rules=for-tuple-pattern
 //@head
     fn evict_all_dispatch(&mut self, garbages: Vec<(Event, Arc<Record<E>>)>)
         ensures final(self).dispatched(old(self), garbages@), // @label each_garbage_notified_once_and_only_evictions_piped
@@ -728,7 +728,7 @@ impl<E: Eviction> CacheT<E> {
 //@end
 
 // ---- RawCache::flush: listener loop, then all evicted records handed to pipe.flush
-//@region foyer-memory/src/raw.rs :: impl~^impl<E, S, I> RawCache<E, S, I> where/fn flush name=flush_notify start=/if let Some\(listener\) = self\.inner\.event_listener\.as_ref\(\) \{\s*\n\s*for \(event, record\) in garbages\.iter\(\)/ end=/if let Some\(listener\) = self\.inner\.event_listener\.as_ref\(\) \{\s*\n\s*for \(event, record\) in garbages\.iter\(\)/ rules=for-tuple-pattern
+//@region foyer-memory/src/raw.rs :: impl~^impl<E, S, I> RawCache<E, S, I> where/fn flush name=flush_notify start=/if let Some\(listener\) = self\.inner\.event_listener\.as_ref\(\)/ stmts=1 rules=for-tuple-pattern
 //@head
     fn flush_notify(&mut self, garbages: &Vec<(Event, Arc<Record<E>>)>)
         ensures
@@ -752,7 +752,7 @@ impl<E: Eviction> CacheT<E> {
 // ---- RawCache::flush hand-off: every evicted record goes to pipe.flush exactly once (C15)
 // the iterator-adapter line `garbages.into_iter().map(|(_, record)| Piece::new(record)).collect_vec()` is outside
 // Verus; it is replaced by the prelude function `pieces_of` (assumed: one piece per garbage record, in order)
-//@region foyer-memory/src/raw.rs :: impl~^impl<E, S, I> RawCache<E, S, I> where/fn flush name=flush_handoff start=/if piped \{\s*\n\s*let pieces = garbages\.into_iter\(\)/ end=/if piped \{\s*\n\s*let pieces = garbages\.into_iter\(\)/ rules=de-async sub=@garbages\.into_iter\(\)\.map\(\|\(_, record\)\| Piece::new\(record\)\)\.collect_vec\(\)@pieces_of(garbages)@
+//@region foyer-memory/src/raw.rs :: impl~^impl<E, S, I> RawCache<E, S, I> where/fn flush name=flush_handoff start=/if piped \{/ stmts=1 rules=de-async sub=@garbages\.into_iter\(\)\.map\(\|\(_, record\)\| Piece::new\(record\)\)\.collect_vec\(\)@pieces_of(garbages)@
 //@head
     fn flush_handoff(&mut self, piped: bool, garbages: Vec<(Event, Arc<Record<E>>)>)
         requires piped == old(self).pipe.enabled,
@@ -765,7 +765,7 @@ impl<E: Eviction> CacheT<E> {
 }
 
 // ---- RawCache::resize, per-shard closure body: capacity updated, then evict to the new capacity (C05)
-//@region foyer-memory/src/raw.rs :: impl~^impl<E, S, I> RawCache<E, S, I> where/fn resize name=resize_shard start=/shard\.capacity = shard_capacity;/ end=/shard\.evict\(shard_capacity, &mut garbages\)/ sub=@&mut garbages@garbages@
+//@region foyer-memory/src/raw.rs :: impl~^impl<E, S, I> RawCache<E, S, I> where/fn resize name=resize_shard start=/shard\.eviction\.update\(shard_capacity, None\)\.inspect\(\|_\| \{/ body=1 sub=@&mut garbages@garbages@
 //@head
 fn resize_shard<E: Eviction, S, I: Indexer<Eviction = E>>(shard: &mut RawCacheShard<E, S, I>, shard_capacity: usize, garbages: &mut Vec<(Event, Arc<Record<E>>)>)
     requires old(shard).wf(),
@@ -777,7 +777,7 @@ fn resize_shard<E: Eviction, S, I: Indexer<Eviction = E>>(shard: &mut RawCacheSh
         forall|i: int| old(garbages)@.len() <= i < final(garbages)@.len() ==> (#[trigger] final(garbages)@[i]).0 == Event::Evict, // @label resize_victims_are_evictions
 //@end
 
-//@region foyer-memory/src/raw.rs :: impl~^impl<E, S, I> RawCache<E, S, I> where/fn resize name=resize_dispatch start=/let piped = pipe\.is_enabled\(\);/ end=/if inner\.event_listener\.is_some\(\) \|\| piped/ rules=for-tuple-pattern
+//@region foyer-memory/src/raw.rs :: impl~^impl<E, S, I> RawCache<E, S, I> where/fn resize name=resize_dispatch start=/let piped = pipe\.is_enabled/ stmts=2 rules=for-tuple-pattern
 //@head
 fn resize_dispatch<E: Eviction>(inner: &mut InnerT<E>, pipe: &mut PipeT<E>, garbages: Vec<(Event, Arc<Record<E>>)>)
     ensures
@@ -805,7 +805,7 @@ fn resize_dispatch<E: Eviction>(inner: &mut InnerT<E>, pipe: &mut PipeT<E>, garb
 //@end
 
 // ---- RawCache::remove: one Remove notification for the removed record, nothing piped
-//@region foyer-memory/src/raw.rs :: impl~^impl<E, S, I> RawCache<E, S, I> where/fn remove name=remove_notify start=/if let Some\(listener\) = self\.inner\.event_listener\.as_ref\(\) \{\s*\n\s*listener\.on_leave\(Event::Remove/ end=/if let Some\(listener\) = self\.inner\.event_listener\.as_ref\(\) \{\s*\n\s*listener\.on_leave\(Event::Remove/
+//@region foyer-memory/src/raw.rs :: impl~^impl<E, S, I> RawCache<E, S, I> where/fn remove name=remove_notify start=/if let Some\(listener\) = self\.inner\.event_listener\.as_ref\(\)/ stmts=1
 //@head
 impl<E: Eviction> CacheT<E> {
     fn remove_notify(&mut self, record: &Arc<Record<E>>)
@@ -818,7 +818,7 @@ impl<E: Eviction> CacheT<E> {
 }
 
 // ---- RawCacheInner::clear: one Clear notification per cleared record, nothing piped
-//@region foyer-memory/src/raw.rs :: impl~^impl<E, S, I> RawCacheInner<E, S, I> where/fn clear name=clear_notify start=/if let Some\(listener\) = self\.event_listener\.as_ref\(\)/ end=/if let Some\(listener\) = self\.event_listener\.as_ref\(\)/
+//@region foyer-memory/src/raw.rs :: impl~^impl<E, S, I> RawCacheInner<E, S, I> where/fn clear name=clear_notify start=/if let Some\(listener\) = self\.event_listener\.as_ref\(\)/ stmts=1
 //@head
 impl<E: Eviction> InnerT<E> {
     fn clear_notify(&mut self, garbages: Vec<Arc<Record<E>>>)
@@ -845,7 +845,7 @@ impl<E: Eviction> InnerT<E> {
 // ---- RawCacheEntry::drop, last reference of a phantom (disk-only / filtered) entry: one Evict notification and one
 // hand-off to the pipe (C12, C13)
 pub struct EntryT<E: Eviction> { pub pipe: PipeT<E>, pub inner: InnerT<E>, pub record: Arc<Record<E>> }
-//@region foyer-memory/src/raw.rs :: impl~Drop for RawCacheEntry/fn drop name=entry_drop_phantom start=/if self\.record\.properties\(\)\.phantom\(\)\.unwrap_or_default\(\) \{/ end=/if self\.record\.properties\(\)\.phantom\(\)\.unwrap_or_default\(\) \{/
+//@region foyer-memory/src/raw.rs :: impl~Drop for RawCacheEntry/fn drop name=entry_drop_phantom start=/if self\.record\.properties\(\)\.phantom\(\)/ stmts=1
 //@head
 impl<E: Eviction> EntryT<E> {
     fn entry_drop_phantom(&mut self)
@@ -931,7 +931,7 @@ impl HashBuilderT { #[verifier::external_body] pub fn hash_one(&self, k: &u64) -
 pub struct PlacementInnerT { pub hash_builder: HashBuilderT, pub weighter: WeighterT, pub filter: FilterT }
 pub struct PlacementT { pub inner: PlacementInnerT }
 impl PlacementT {
-//@region foyer-memory/src/raw.rs :: impl~^impl<E, S, I> RawCache<E, S, I> where/fn insert_with_properties_inner name=placement start=/let hash = self\.inner\.hash_builder\.hash_one\(&key\);/ end=/&& location == Location::OnDisk\s*\n\s*\{\s*\n\s*properties = properties\.with_phantom\(true\);/ rules=let-chain sub=@\(self\.inner\.weighter\)\(@self.inner.weighter.call(@ sub=@\(self\.inner\.filter\)\(@self.inner.filter.call(@
+//@region foyer-memory/src/raw.rs :: impl~^impl<E, S, I> RawCache<E, S, I> where/fn insert_with_properties_inner name=placement start=/let hash = self\.inner\.hash_builder\.hash_one/ stmts=4 rules=let-chain sub=@\(self\.inner\.weighter\)\(@self.inner.weighter.call(@ sub=@\(self\.inner\.filter\)\(@self.inner.filter.call(@
 //@head
     fn placement<P: PropsW>(&self, key: u64, value: u64, mut properties: P) -> (r: P)
         ensures
